@@ -187,7 +187,16 @@ fn check_case(mode: Mode, rv: &RV, real: &Value, o: &Opts, t: &mut Tally) {
             // the conversions that print without an option record (compact): Display, to_string,
             // String::from(value) - once per value, when the record is the compact preset
             if *o == Opts::compact() {
-                for (name, text) in [("to_string()", explore::guard(|| real.to_string())), ("String::from(value)", explore::guard(|| String::from(real.clone()))), ("format!(\"{}\")", explore::guard(|| format!("{real}")))] {
+                for (name, text) in [
+                    ("to_string()", explore::guard(|| real.to_string())),
+                    ("String::from(value)", explore::guard(|| String::from(real.clone()))),
+                    ("format!(\"{}\")", explore::guard(|| format!("{real}"))),
+                    // (formatter flags are not print options: whatever they do to the text, it
+                    // still has to be the value)
+                    ("format!(\"{:#}\")", explore::guard(|| format!("{real:#}"))),
+                    ("format!(\"{:+.3}\")", explore::guard(|| format!("{real:+.3}"))),
+                    ("format!(\"{:#}\") of print_with", explore::guard(|| format!("{:#}", real.print_with(ro.clone())))),
+                ] {
                     t.evals += 1;
                     match text {
                         Ok(text) => match Value::parse_str(&text) {
